@@ -59,7 +59,7 @@ struct SaveWorld : World {
         return v;
     }
     void gen(const std::string &prop, Rng &kr, Rng &pr, Knobs &k, Plan &p) override {
-        k.assign(1, kr.below(2)); const AppDesc &d = app_desc((int)k[0]); auto &P = *d.params;
+        k.assign(1, prop == "C13" ? (kr.chance(0.5) ? 2 : kr.below(2)) : kr.below(3)); const AppDesc &d = app_desc((int)k[0]); auto &P = *d.params;
         bool allow_char_zero = pr.chance(0.1);   // the trigger of a known finding is constructed in 10 % of the runs only, so that it cannot mask other failures
         int n = 1 + (int)pr.below(prop == "C13" ? 14 : 24); bool faults = prop == "C12" && pr.chance(0.5);
         for (int i = 0; i < n; i++) {
@@ -189,7 +189,7 @@ struct SaveWorld : World {
                     else { stat_add(P_PERM_SAMPLED); Rng r((uint64_t)op.a[2] + ls.size()); for (int t = 0; t < 200; t++) { for (size_t i = ord.size(); i > 1; i--) std::swap(ord[i - 1], ord[r.below(i)]); if (!one(ord)) return; } }
                 };
                 note("permuting lines"); sweep(lines, "all lines present");
-                static const char *providers[] = {"/preset", "/Poscenabled", "/Pvoices", "/Pfx", "/mode"}; bool dep = false;
+                static const char *providers[] = {"/preset", "/Poscenabled", "/Pvoices", "/Pfx", "/mode", "/units0/bank", "/units0/kind", "/units0/gain", "/units0/width", "/units0/enabled", "/units0/unison", "/units0/type", "/units0/lfo_shape", "/units1/bank", "/units1/kind", "/units1/type", "/units1/lfo_shape", "/units1/enabled", "/units1/unison"}; bool dep = false;
                 for (size_t i = 0; i < lines.size() && res.cls.empty(); i++) { std::string a = lines[i].substr(0, lines[i].find(' ')); bool prov = false; for (auto pv : providers) if (a == pv) prov = true; if (!prov) continue; dep = true;
                     std::vector<std::string> ls = lines; ls.erase(ls.begin() + i); if (ls.size() >= 2) { stat_add(F_DEP_LINE_DELETED); sweep(ls, ("line " + a + " deleted").c_str()); } }
                 if (dep) stat_add(P_DEP_ORDER_MATTERED);
